@@ -12,7 +12,8 @@
 //! Answer: `E:<elements>|Z:<title sizes>|C:<chunks>|X:<digest>`
 //!   elements: the real `partition()` output in the C14 element syntax (id = index)
 //!   Z: `idx=size*100,…` font sizes of Title elements (`.` none)  — level input of the model
-//!   chunks: `#`-joined `<index>!<text hex>!<full_text hex>!<pages .-joined>!<types .-joined>!<heading>!<token_estimate>!<oversized>!<heading_path>!<chunk_id hex>!<prev ~|hex>!<next ~|hex>!<span ~|a-b>!<sha8 of full_text, computed here with the sha2 crate>`
+//!   chunks: `#`-joined `<index>!<text hex>!<full_text hex>!<pages .-joined>!<types .-joined>!<heading>!<token_estimate>!<oversized>!<heading_path>!<chunk_id hex>!<prev ~|hex>!<next ~|hex>!<span ~|a-b>!<sha8 of full_text, computed here with the sha2 crate>!<meta>`
+//!           meta = `<has_table has_list has_code heading_only bits>.<chars>.<words>.<sentences>.<bold italic bits>.<dominant font ~|hex>.<region pages -joined|_>.<#bounding boxes>`
 //!   X: md5 of the element-markdown export + chunk dump of a SECOND, separate process (`same` when
 //!      identical to this process's, else `differs`)
 use oxidize_pdf::parser::{PdfDocument, PdfReader};
@@ -158,8 +159,32 @@ fn show_chunk(c: &RagChunk) -> String {
     let sha8: String = digest[..8].iter().map(|b| format!("{:02x}", b)).collect();
     let join_u32 = |v: &[u32]| if v.is_empty() { ".".to_string() } else { v.iter().map(|p| p.to_string()).collect::<Vec<_>>().join(".") };
     let hp = if c.metadata.heading_path.is_empty() { ".".to_string() } else { c.metadata.heading_path.iter().map(|h| hs(h)).collect::<Vec<_>>().join("/") };
+    let m = &c.metadata;
+    let b = |x: bool| if x { '1' } else { '0' };
+    let region_pages = if m.page_regions.is_empty() {
+        "_".to_string()
+    } else {
+        m.page_regions.iter().map(|r| r.page.to_string()).collect::<Vec<_>>().join("-")
+    };
+    // discrete metadata: content-type flags, counts, majority bold/italic, dominant font, pages of
+    // the regions, number of bounding boxes
+    let meta = format!(
+        "{}{}{}{}.{}.{}.{}.{}{}.{}.{}.{}",
+        b(m.content_types.has_table),
+        b(m.content_types.has_list),
+        b(m.content_types.has_code),
+        b(m.content_types.heading_only),
+        m.char_count,
+        m.word_count,
+        m.sentence_count,
+        b(m.is_bold),
+        b(m.is_italic),
+        opt_hs(&m.dominant_font),
+        region_pages,
+        c.bounding_boxes.len()
+    );
     format!(
-        "{}!{}!{}!{}!{}!{}!{}!{}!{}!{}!{}!{}!{}!{}",
+        "{}!{}!{}!{}!{}!{}!{}!{}!{}!{}!{}!{}!{}!{}!{}",
         c.chunk_index,
         hs(&c.text),
         hs(&c.full_text),
@@ -176,7 +201,8 @@ fn show_chunk(c: &RagChunk) -> String {
             None => "~".to_string(),
             Some((a, b)) => format!("{}-{}", a, b),
         },
-        sha8
+        sha8,
+        meta
     )
 }
 
